@@ -140,8 +140,9 @@ lst = src('src/plugins/cmark/block/list.rs')
 sites['listOuter'] = bool(re.search(r'let old_node = std::mem::replace\(&mut state\.node, new_node\);\s*state\.level \+= 1;', lst) and re.search(r'// Finalize list\s*state\.level -= 1;', lst))
 for k, v in sites.items():
     expect('levelsite.' + k, ['C02', 'C01'], v is not None, 'recursive call site not found')
-defs.append('/-- increment applied to the nesting level around each recursive call site (static scan) -/\n'
-            'def levelSites : List (String × Nat) := [' + ', '.join('("%s", %d)' % (k, 1 if v else 0) for k, v in sorted(sites.items())) + ']')
+defs.append('/-- increment applied to the nesting level around each recursive call site (static scan), in the order\n'
+            '    [quote, listOuter, listItem, linkLabel, skipRule] of `MdIt.Nesting.Sites.toList` -/\n'
+            'def levelSites : List Nat := [' + ', '.join('%d' % (1 if sites[k] else 0) for k in ['quote', 'listOuter', 'listItem', 'linkLabel', 'skipRule']) + ']')
 inl = src('src/parser/inline/mod.rs')
 anchor('inline.skip_token_overlimit', ['C01', 'C02'], r'state\.pos = state\.pos_max;\s*state\.cache\.insert\(pos, state\.pos\);\s*return;', inl)
 anchor('inline.tokenize_guard', ['C02'], r'if state\.level < state\.md\.max_nesting \{', inl)
